@@ -48,6 +48,7 @@ type Prog struct {
 	MaxID  int   // ids 1..MaxID are outside loops (log must be increasing on them)
 	Forms  []string
 	HasErr bool // the program was built to fail (boundary arithmetic etc.)
+	Depth  int  // >0: run with runtime.Config.StackDepthLimit = Depth (op field `depth=`)
 }
 
 type g struct {
